@@ -185,6 +185,11 @@ def mog_child(payload):
                         fails.append(("hybrid-zero", f"num_pixel_render=0: hybrid differs from Fourier by {d:.2e} of the peak (must be identical)"))
                     elif not d <= 6e-3:
                         fails.append(("hybrid-vs-fourier", f"num_pixel_render={npr}: hybrid differs from Fourier by {d:.2e} of the peak (tolerance 6e-3)"))
+                # "identically when that number is zero" — for every admissible decomposition, not only the default number of components
+                for ns in (20, 30):
+                    d = float(np.abs(img("hybrid", npr=0, nsig=ns) - img("fourier", nsig=ns)).max()) / peak
+                    if d != 0.0:
+                        fails.append(("hybrid-zero", f"num_pixel_render=0, n_sigma={ns}: hybrid differs from Fourier by {d:.2e} of the peak (must be identical)"))
             elif c["what"] == "n-sigma":
                 ims = {ns: img(c["kind"], nsig=ns) for ns in (15, 20, 30)}
                 peak = float(np.abs(ims[30]).max())
